@@ -617,6 +617,33 @@ pub mod voprf {
 }
 pub use voprf::Group;
 
+// ---------------------------------------------------------------------------------- serde (only what the hand-written key impls use)
+pub mod serde {
+    use super::*;
+    verus! {
+    pub mod de { use super::*; verus! { pub trait Error: Sized { fn custom<T>(msg: T) -> Self; } } }
+    /// a data format reader; `payload()` is the byte string it will yield for a fixed-size byte array
+    pub trait Deserializer<'de>: Sized { type Error: de::Error; spec fn payload(&self) -> Seq<u8>; }
+    /// a data format writer; `written(bytes)` is the outcome of writing a fixed-size byte array
+    pub trait Serializer: Sized { type Ok; type Error; spec fn written(&self, bytes: Seq<u8>) -> Result<Self::Ok, Self::Error>; }
+    pub trait Deserialize<'de>: Sized { fn deserialize<D: Deserializer<'de>>(deserializer: D) -> Result<Self, D::Error>; }
+    pub trait Serialize { fn serialize<S: Serializer>(&self, serializer: S) -> Result<S::Ok, S::Error>; }
+    impl<'de, L: ArrayLength<u8>> Deserialize<'de> for GenericArray<u8, L> {
+        /// generic-array's serde impl: reads exactly L bytes or fails
+        #[verifier::external_body]
+        fn deserialize<D: Deserializer<'de>>(deserializer: D) -> (r: Result<Self, D::Error>)
+            ensures r is Ok ==> r->Ok_0@ == deserializer.payload()
+        { unimplemented!() }
+    }
+    impl<L: ArrayLength<u8>> Serialize for GenericArray<u8, L> {
+        #[verifier::external_body]
+        fn serialize<S: Serializer>(&self, serializer: S) -> (r: Result<S::Ok, S::Error>)
+            ensures r == serializer.written(self@)
+        { unimplemented!() }
+    }
+    } // verus!
+}
+
 // ---------------------------------------------------------------------------------- opaque-ke's own traits
 /// key-exchange group (declaration anchor-checked against src/key_exchange/group/mod.rs).
 /// The trait-level contract is what every implementation must satisfy; for the three impls in /repo it is
